@@ -147,6 +147,9 @@ type Op struct {
 	HasTarget bool   `json:"has_target,omitempty"`
 	Target    string `json:"target,omitempty"`
 	Val       string `json:"val,omitempty"` // user label value (prepare/view/commit/update)
+	// Prepare with target only: while the backend Mount of this call is in progress the
+	// harness itself calls Prepare(Target, "") ("prepare") or View(Target, "") ("view")
+	Inject string `json:"inject,omitempty"`
 	// fault script for this operation
 	MountFail   bool `json:"mount_fail,omitempty"`
 	CheckFail   bool `json:"check_fail,omitempty"` // every Check call of this operation fails
@@ -175,6 +178,9 @@ func (o Op) String() string {
 		}
 		if o.CheckFail {
 			f += ",checkfail"
+		}
+		if o.Inject != "" {
+			f += ",during-mount:" + o.Inject + "(" + o.Target + ")"
 		}
 		return fmt.Sprintf("Prepare(%s,parent=%q%s%s)", o.Key, o.Parent, t, f)
 	case "view":
